@@ -23,6 +23,16 @@ c09_steps([S|Ss]) :- ( c09_step(S) -> true ; c09_log(step_failed) ), c09_steps(S
 c09_step(az(K, I)) :- assertz(c09p(K, I)).
 c09_step(aa(K, I)) :- asserta(c09p(K, I)).
 c09_step(rt(K)) :- ( retract(c09p(K, I)) -> c09_log(rt(I)) ; c09_log(rt(none)) ).
+c09_step(rtn(N)) :-
+    findall(I, c09p(_, I), Is),
+    length(Is, Len),
+    (   Len > 0 ->
+        Idx is (N * Len) >> 8,
+        Idx1 is Idx + 1,
+        c09_nth1(Idx1, Is, Id),
+        ( retract(c09p(_, Id)) -> c09_log(rt(Id)) ; c09_log(rt(none)) )
+    ;   c09_log(rt(none))
+    ).
 c09_step(ra(K)) :- retractall(c09p(K, _)).
 c09_step(pr(K)) :- findall(I, c09p(K, I), L), c09_log(pr(L)).
 c09_step(prc(K)) :- findall(I, clause(c09p(K, I), true), L), c09_log(pr(L)).
